@@ -2,7 +2,7 @@
 executor code with kills and time-outs at every step of the resize."""
 from checks import simcommon as S
 
-FAMILIES = ['resize', 'reuse', 'idleshrink', 'cbreuse', 'growshrink']
+FAMILIES = ['resize', 'reuse', 'idleshrink', 'cbreuse', 'growshrink', 'shrinkkill']
 PER_FAMILY = (700, 12000)
 
 PROOF = S.pool_proof('C10', ['C10_never_posts_while_work_is_pending', 'C10_resize_returns_as_asked', 'C10_blocked_resize_can_always_progress',
